@@ -236,3 +236,6 @@ Proof.
   - apply Qc_eqb_spec in E. split; [discriminate|congruence].
   - split; [|reflexivity]. intros _ H. apply Qc_eqb_spec in H. congruence.
 Qed.
+
+(* from here on the linear-arithmetic tactic also sees through the integer injections *)
+Ltac qc_lra ::= unfold nq, zq in *; qc2q; lra.
